@@ -597,6 +597,53 @@ fn judge_tag(t: &dyn TypeOps, cx: &mut Cx, i: usize, want: &Val, p: &[u8], off: 
 
 // ------------------------------------------------------------------ C18
 
+/// The forest conditions of C18 on a row list: rows inside the stream, pre-order nesting by
+/// field path, children (and the top level, from `start`) tiling their parent without gap or
+/// overlap, padding rows covering zero bytes only and shorter than the unit that follows,
+/// zero-copy blocks at multiples of their recorded alignment.
+pub fn schema_forest(rows_in: &[(String, usize, usize, usize)], buf: &[u8], start: usize) -> Vec<(String, String)> {
+    struct Row<'a> { field: &'a str, offset: usize, size: usize, align: usize }
+    let rows: Vec<Row> = rows_in.iter().map(|(f, o, s, a)| Row { field: f, offset: *o, size: *s, align: *a }).collect();
+    let len = buf.len();
+    let mut bad: Vec<(String, String)> = vec![];
+    let mut stack: Vec<usize> = vec![];
+    let mut children: Vec<Vec<usize>> = vec![vec![]; rows.len()];
+    let mut tops: Vec<usize> = vec![];
+    for (k, r) in rows.iter().enumerate() {
+        if r.offset < start { bad.push(("row-before-start-of-the-value".into(), format!("row {} '{}' at {} (the value starts at {})", k, r.field, r.offset, start))); }
+        if r.offset.saturating_add(r.size) > len { bad.push(("row-out-of-stream".into(), format!("row {} '{}' {}+{}", k, r.field, r.offset, r.size))); }
+        while let Some(&top) = stack.last() {
+            let p = &rows[top];
+            let inside = r.offset >= p.offset && r.offset + r.size <= p.offset + p.size;
+            let named_child = r.field == "PADDING" || r.field.starts_with(&format!("{}.", p.field));
+            if inside && named_child && !(r.size > 0 && r.offset == p.offset + p.size) { break; }
+            stack.pop();
+        }
+        match stack.last() { Some(&p) => children[p].push(k), None => tops.push(k) }
+        if r.field != "PADDING" { stack.push(k); }
+    }
+    let tile = |kids: &[usize], start: usize, end: usize, what: &str, bad: &mut Vec<(String, String)>| {
+        let mut pos = start;
+        for &k in kids {
+            let r = &rows[k];
+            if r.offset != pos { bad.push((format!("{}-{}", what, if r.offset > pos { "gap" } else { "overlap" }), format!("row {} '{}' at {} expected {}", k, r.field, r.offset, pos))); }
+            pos = r.offset + r.size;
+        }
+        if pos != end { bad.push((format!("{}-does-not-reach-end", what), format!("ends at {} expected {}", pos, end))); }
+    };
+    tile(&tops, start, len, "top-level", &mut bad);
+    for (p, ch) in children.iter().enumerate() { if !ch.is_empty() { tile(ch, rows[p].offset, rows[p].offset + rows[p].size, "children", &mut bad); } }
+    for (k, r) in rows.iter().enumerate() {
+        if r.field == "PADDING" {
+            if r.offset + r.size <= len && buf[r.offset..r.offset + r.size].iter().any(|b| *b != 0) { bad.push(("padding-row-covers-nonzero".into(), format!("row {}", k))); }
+            if let Some(nx) = rows.get(k + 1) { if nx.align > 0 && r.size >= nx.align { bad.push(("padding-row-not-shorter-than-unit".into(), format!("row {}", k))); } }
+        } else if r.align > 1 && r.offset % r.align != 0 {
+            bad.push(("block-not-at-multiple-of-recorded-align".into(), format!("row {} '{}' offset {} align {}", k, r.field, r.offset, r.align)));
+        }
+    }
+    bad
+}
+
 pub fn c18(t: &dyn TypeOps, cx: &mut Cx) {
     let ty = t.ty();
     let n = build(t, cx);
@@ -611,46 +658,13 @@ pub fn c18(t: &dyn TypeOps, cx: &mut Cx) {
         };
         let buf = &so.bytes;
         if *buf != plain { cx.violate("schema-bytes-differ-from-plain", json!({"value": vdesc(i, &want)})); continue; }
+        cx.transitions += so.rows.len() as u64;
+        let len = buf.len();
+        let _ = len;
+        let enc = encode(&ty, &want, t.type_name());
+        let mut bad = schema_forest(&so.rows, buf, 0);
         struct Row<'a> { field: &'a str, offset: usize, size: usize, align: usize }
         let rows: Vec<Row> = so.rows.iter().map(|(f, o, s, a)| Row { field: f, offset: *o, size: *s, align: *a }).collect();
-        cx.transitions += rows.len() as u64;
-        let len = buf.len();
-        let enc = encode(&ty, &want, t.type_name());
-        let mut bad: Vec<(String, String)> = vec![];
-        let mut stack: Vec<usize> = vec![];
-        let mut children: Vec<Vec<usize>> = vec![vec![]; rows.len()];
-        let mut tops: Vec<usize> = vec![];
-        for (k, r) in rows.iter().enumerate() {
-            if r.offset.saturating_add(r.size) > len { bad.push(("row-out-of-stream".into(), format!("row {} '{}' {}+{}", k, r.field, r.offset, r.size))); }
-            while let Some(&top) = stack.last() {
-                let p = &rows[top];
-                let inside = r.offset >= p.offset && r.offset + r.size <= p.offset + p.size;
-                let named_child = r.field == "PADDING" || r.field.starts_with(&format!("{}.", p.field));
-                if inside && named_child && !(r.size > 0 && r.offset == p.offset + p.size) { break; }
-                stack.pop();
-            }
-            match stack.last() { Some(&p) => children[p].push(k), None => tops.push(k) }
-            if r.field != "PADDING" { stack.push(k); }
-        }
-        let tile = |kids: &[usize], start: usize, end: usize, what: &str, bad: &mut Vec<(String, String)>| {
-            let mut pos = start;
-            for &k in kids {
-                let r = &rows[k];
-                if r.offset != pos { bad.push((format!("{}-{}", what, if r.offset > pos { "gap" } else { "overlap" }), format!("row {} '{}' at {} expected {}", k, r.field, r.offset, pos))); }
-                pos = r.offset + r.size;
-            }
-            if pos != end { bad.push((format!("{}-does-not-reach-end", what), format!("ends at {} expected {}", pos, end))); }
-        };
-        tile(&tops, 0, len, "top-level", &mut bad);
-        for (p, ch) in children.iter().enumerate() { if !ch.is_empty() { tile(ch, rows[p].offset, rows[p].offset + rows[p].size, "children", &mut bad); } }
-        for (k, r) in rows.iter().enumerate() {
-            if r.field == "PADDING" {
-                if r.offset + r.size <= len && buf[r.offset..r.offset + r.size].iter().any(|b| *b != 0) { bad.push(("padding-row-covers-nonzero".into(), format!("row {}", k))); }
-                if let Some(nx) = rows.get(k + 1) { if nx.align > 0 && r.size >= nx.align { bad.push(("padding-row-not-shorter-than-unit".into(), format!("row {}", k))); } }
-            } else if r.align > 1 && r.offset % r.align != 0 {
-                bad.push(("block-not-at-multiple-of-recorded-align".into(), format!("row {} '{}' offset {} align {}", k, r.field, r.offset, r.align)));
-            }
-        }
         let mblocks: Vec<(usize, usize, usize)> = enc.events.iter().filter_map(|e| if let Ev::Block { off, len, unit, .. } = e { Some((*off, *len, *unit)) } else { None }).collect();
         let sblocks: Vec<(usize, usize, usize)> = rows.iter().filter(|r| r.field.starts_with("ROOT") && r.field.ends_with(".zero")).map(|r| (r.offset, r.size, r.align)).collect();
         if masked_eq(buf, &enc.bytes, &enc.mask) && mblocks != sblocks { bad.push(("block-rows-differ-from-model-trace".into(), format!("schema {:?} model {:?}", sblocks, mblocks))); }
@@ -659,6 +673,26 @@ pub fn c18(t: &dyn TypeOps, cx: &mut Cx) {
         if let Err(p) = &so.debug { bad.push((format!("debug-panic:{}", panic_class(p)), p.clone())); }
         if bad.is_empty() { cx.outcome("schema-ok"); } else { cx.outcome("schema-bad"); }
         for (c, d) in bad { cx.violate(&format!("schema-{}", c), json!({"value": vdesc(i, &want), "observed": d, "rows": rows.len()})); }
+        // a schema writer created on a writer that has already advanced (a second structure
+        // after a first one, a value after a preamble): same forest, offsets from that position,
+        // and the bytes the plain writer produces from the same position
+        if i < 2 {
+            for r in [1usize, 3, 8, 13, 66] {
+                cx.evals += 1;
+                match (t.inner_schema(i, r), t.inner_ser(i, r)) {
+                    (Out::Ok(s2), Out::Ok(pl)) => {
+                        cx.transitions += s2.rows.len() as u64;
+                        let mut bad2 = schema_forest(&s2.rows, &s2.bytes, r);
+                        if s2.bytes.len() < r || s2.bytes[..r].iter().any(|b| *b != 0xA5) { bad2.push(("preamble-overwritten".into(), String::new())); }
+                        if s2.bytes.len() != pl.bytes.len() || s2.bytes[r.min(s2.bytes.len())..] != pl.bytes[r.min(pl.bytes.len())..] { bad2.push(("bytes-differ-from-plain-writer-at-the-same-position".into(), format!("{} vs {} bytes", s2.bytes.len(), pl.bytes.len()))); }
+                        if let Err(p) = &s2.debug { bad2.push((format!("debug-panic:{}", panic_class(p)), p.clone())); }
+                        cx.outcome(if bad2.is_empty() { "schema-at-offset-ok" } else { "schema-at-offset-bad" });
+                        for (c, d) in bad2 { cx.violate(&format!("schema-at-offset-{}", c), json!({"value": vdesc(i, &want), "writer_position": r, "observed": d})); }
+                    }
+                    (o, _) => cx.violate(&format!("schema-at-offset-{}", o.class()), json!({"value": vdesc(i, &want), "writer_position": r, "observed": o.describe()})),
+                }
+            }
+        }
         if i == 0 { cx.sample(json!({"type": cx.type_id, "value": format!("{:?}", want), "rows": rows.iter().take(12).map(|r| format!("{}@{}+{}", r.field, r.offset, r.size)).collect::<Vec<_>>() })); }
     }
 }
